@@ -40,6 +40,22 @@ def tilde_upper(rel):
     rel = list(rel)
     return [rel[0] + 1] if len(rel) == 1 else [rel[0], rel[1] + 1]
 
+def make_judge(F):
+    """the property on one specifier set (no '||'), through the reference; used by the search after a broken correspondence"""
+    def judge(spec, _other=None):
+        c, groups = I.parse_with_groups(spec)
+        if isinstance(c, Exception) or len(groups) != 1: return None
+        lits = literals_of(groups[0])
+        if not lits or any(op in ("^", "~", "") for op, _ in lits): return None
+        probes = I.critical_probes(I.bounds_of(c) + [v for _, v in lits])
+        fr = F.one("contains", ",".join(groups[0]), [v.text for v in probes])
+        if fr[0] != "ok": return None
+        for v, want in zip(probes, fr[1:]):
+            if in_domain(lits, v) and c.allows(v) != want:
+                return f"constraint {c} admits {v.text} = {c.allows(v)}, reference contains = {want}"
+        return None
+    return judge
+
 def run(tier):
     from poetry.core.constraints.version import Version
     R = common.Run("C04", tier)
@@ -148,9 +164,20 @@ def run(tier):
                 R.count("or_cases")
                 if cu.allows(p) != (ca.allows(p) or cb.allows(p)):
                     R.fail(dict(spec=a + " || " + b, candidate=p.text), "'a || b' is not the union")
-    M.close(); F.close()
-    return R.finish(VC.TRUSTED + ["reference: packaging.specifiers.SpecifierSet.contains(prereleases=True) from site-packages"],
-                    VC.ASSUME, RULE, "make -C coq Properties/C04.vo && coqc Properties/C04.v (Print Assumptions)")
+    M.close()
+    def search(Rn):
+        found = VC.make_search(make_judge(F))(Rn)
+        if found:   # replay format of this check
+            case, detail = found
+            import re
+            m = re.search(r"admits (\S+) =", detail)
+            return dict(spec=case["a"], candidate=m.group(1) if m else ""), detail
+        return None
+    try:
+        return R.finish(VC.TRUSTED + ["reference: packaging.specifiers.SpecifierSet.contains(prereleases=True) from site-packages"],
+                        VC.ASSUME, RULE, "make -C coq Properties/C04.vo && coqc Properties/C04.v (Print Assumptions)", search=search)
+    finally:
+        F.close()
 
 def replay(rep):
     from poetry.core.constraints.version import Version
